@@ -18,7 +18,7 @@ impl ProfibusPhy for ScriptPhy {
     where
         F: FnOnce(&mut [u8]) -> (usize, R),
     {
-        let mut buf = [0u8; 256];
+        let mut buf = [0xA5u8; 256]; // a dirty transmit buffer (real PHYs reuse theirs)
         f(&mut buf).1
     }
     fn receive_data<F, R>(&mut self, _now: Instant, f: F) -> R
